@@ -439,8 +439,19 @@ def _handle_stmts(stmts: list[ast.stmt], ctx: Context) -> sympy.Expr | None:
                 else:
                     _LOGGER.debug("Skipping import %s", node)
 
+        elif isinstance(node, ast.Pass) or (
+            isinstance(node, ast.Expr)
+            and isinstance(node.value, ast.Constant)
+            and isinstance(node.value.value, str)
+        ):
+            # pass and docstrings have no effect
+            continue
+
         else:
-            _LOGGER.debug("Skipping node of type %s", type(node))
+            # Anything else (loops, augmented assignments, with, try, ...) can change
+            # the value of the function, so it must not be skipped silently
+            msg = f"Statement type {type(node).__name__} not implemented"
+            raise NotImplementedError(msg)
 
     return _NO_RETURN
 
